@@ -10,7 +10,20 @@ type Rule func(p *engine.Prog, r *engine.Report)
 
 var Registry = map[string]Rule{}
 
-func register(id string, f Rule) { Registry[id] = f }
+// extras holds rules added to a property from another file (looked up at run time, so the order of
+// init functions does not matter).
+var extras = map[string][]Rule{}
+
+func extend(id string, f Rule) { extras[id] = append(extras[id], f) }
+
+func register(id string, f Rule) {
+	Registry[id] = func(p *engine.Prog, r *engine.Report) {
+		f(p, r)
+		for _, e := range extras[id] {
+			e(p, r)
+		}
+	}
+}
 
 // mustFunc resolves an anchor or records a checker error (anchor moved => check broken,
 // never a silent pass).
